@@ -63,9 +63,9 @@ Clause(s, a, o) ==
       "prompt-close: a file was left to the garbage collector"
     ELSE IF o.caller # t.callerOpen THEN
       "caller-closed: the caller's PIL image was closed"
-    ELSE IF o.temp # (IF t.temp THEN 1 ELSE 0) THEN
-      (IF t.temp THEN "temp-missing: temporary copy of an open URL image is gone"
-       ELSE "temp-left: temporary file left behind")
+    ELSE IF o.temp < TempCount(t) THEN
+      "temp-missing: temporary copy of an open URL image is gone"
+    ELSE IF o.temp > TempCount(t) THEN "temp-left: temporary file left behind"
     ELSE IF t.kind # "none" /\ o.size # t.size THEN
       "size-changed: the image's size setting was altered"
     ELSE IF o.pair = "diff" THEN
